@@ -7,7 +7,8 @@ case = (name, base, temp, clean, filed, extensioned, fext, pre, steps[, entry])
   entry = None (plain constructor) | ("ctx", clear): `with openFiler(cls, name=..., temp=..., clear=clear, ...)` around the steps
   pre   = [(relative path below HEAD, 'd' | 'f'), ...]  created before the Filer (non-temp only)
   steps = [("reopen", clear, reuse, clean[, temp None|bool[, fext None|str]]) | ("close", clear) | ("doer",), ...]  applied after the constructor
-          ("doer",) = a FilerDoer for the filer run to its time limit by a non-real-time Doist
+          ("doer"[, route, temp]) = a FilerDoer for the filer run to its time limit by a non-real-time Doist; route do | doist | doer =
+          temp injected by doist.do(temp=..), Doist(temp=..), FilerDoer(temp=..)
 """
 import itertools
 import os
@@ -120,7 +121,7 @@ def gen_steps(rng):
         return []
     steps = []
     for _ in range(rng.choice([0, 0, 0, 1, 1, 2])):
-        steps.append(gen_reopen(rng, rng.random() < 0.4) if rng.random() < 0.75 else rng.choice([("doer",), ("exists",)]))
+        steps.append(gen_reopen(rng, rng.random() < 0.4) if rng.random() < 0.75 else rng.choice([("doer",), ("exists",), gen_doer(rng), gen_doer(rng)]))
     steps.append(("close", rng.random() < 0.8))
     return steps
 
@@ -136,10 +137,16 @@ def gen_entry(rng, steps):
     elif r < 0.55:
         steps = steps[:-1] if steps and steps[-1][0] == "close" else steps      # block leaves it open
     elif r < 0.75:
-        steps = [st for st in steps if st[0] != "close"] + [("doer",)]
+        steps = [st for st in steps if st[0] != "close"] + [rng.choice([("doer",), gen_doer(rng)])]
     elif r < 0.9:
         steps = [("close", False), ("reopen", False, True, False, None, None), ("close", False)]
     return ("ctx", rng.random() < 0.5), steps
+
+
+def gen_doer(rng):
+    """a FilerDoer step with a temp value injected through one of the three routes"""
+    route = rng.choice(["do", "doist", "doer"])
+    return ("doer", route, True if route != "do" or rng.random() < 0.8 else False)
 
 
 def gen_reopen(rng, clean):
